@@ -501,16 +501,16 @@ def run(chk):
                 "until the run completes; write faults: RLIMIT_FSIZE at 9-17 sizes so that an ordinary write, the final flush or the compressor trailer fails; failure paths: DSL error / malformed input / missing file / schema change / ENOSPC / refusals at file index i. "
                 "Non-trivial = kill strictly inside the temp-file window, or failure at file index >= 2; distinct = (scenario, site, n)")
     if not only or "crash" in only:
-        n = 12 if q else 150
+        n = 20 if q else 300
         chk.pmap(crash_case, [{"seed": f"{chk.seed}/crash/{i}", "tier": chk.tier} for i in range(n)], label="hook crash points")
     if not only or "sys" in only:
-        n = 4 if q else 60
+        n = 6 if q else 100
         chk.pmap(syscall_case, [{"seed": f"{chk.seed}/sys/{i}", "tier": chk.tier} for i in range(n)], label="syscall crash points")
     if not only or "fail" in only:
-        n = 160 if q else 3000
+        n = 200 if q else 5000
         chk.pmap(failure_case, [{"seed": f"{chk.seed}/fail/{i}", "tier": chk.tier} for i in range(n)], label="failure paths")
     if not only or "fsize" in only:
-        n = 16 if q else 200
+        n = 20 if q else 400
         limits = [256, 1024, 2048, 4096, 8192, 12288, 16384, 32768, 65536] if q else [256, 512, 1024, 1536, 2048, 3072, 4096, 6144, 8192, 10240, 12288, 16384, 24576, 32768, 49152, 65536, 131072]
         chk.pmap(fsize_case, [{"seed": f"{chk.seed}/fsize/{i}", "tier": chk.tier, "limits": limits} for i in range(n)], label="write faults by file-size limit")
     chk.extra["crash_points_covered_of_total"] = [chk.stats.get("crash_points_covered", 0), chk.stats.get("crash_points_total", 0)]
